@@ -180,7 +180,7 @@ def run(ctx):
             subprocess_checks(ctx, tmp, results)
     finally:
         shutil.rmtree(tmp, ignore_errors=True)
-    ctx.add_rule('every module of <=%d doctests over 8 by-construction kinds (pass, fail by output, fail by exception, all skipped, partly skipped, '
+    ctx.add_rule('every module of <=%d doctests over 10 by-construction kinds (pass, fail by output, fail by exception, all skipped, partly skipped, '
                  'expected exception, force-disabled in 6 spellings, comment only) + seeded modules of 3..8 doctests in function/method/google-block '
                  'layouts x command in {all, list, every unique name, every bare callname, a missing name} x verbosity 0..3; non-trivial = '
                  'module with at least two different kinds' % (2 if quick else 3))
